@@ -855,6 +855,25 @@ class Interp:
                 return fn(f.attr, Poly.atom(recv.name), *xa)
             if isinstance(recv, (Poly, list)) and f.attr in ("detach", "numpy", "clone", "cpu", "item", "copy", "tolist", "astype", "flatten"):
                 return recv
+            if isinstance(recv, list) and f.attr == "sort":
+                keyf = next((self.eval(k.value) for k in e.keywords if k.arg == "key"), None)
+                rev = next((self.truth(self.eval(k.value)) for k in e.keywords if k.arg == "reverse"), False)
+
+                def keyof(x):
+                    if keyf is None:
+                        v = x
+                    elif isinstance(keyf, Closure) and isinstance(keyf.node, ast.Lambda):
+                        sub = Interp(self.env, self.selfattrs, self.region, self.methods, self.cls_name, externals=self.externals)
+                        sub.env[keyf.node.args.args[0].arg] = x
+                        v = sub.eval(keyf.node.body)
+                    else:
+                        raise Undecided("sort key")
+                    if isinstance(v, str) or (isinstance(v, tuple) and all(isinstance(t, str) for t in v)):
+                        return v
+                    raise Undecided("sort key is not a string / tuple of strings")
+
+                recv.sort(key=keyof, reverse=rev)
+                return None
             if isinstance(recv, (set, list)) and f.attr in ("add", "pop", "append", "extend", "index", "count", "copy", "update", "discard"):
                 return getattr(recv, f.attr)(*[self.eval(a) for a in e.args])
             if isinstance(recv, dict) and f.attr == "setdefault":
